@@ -11,7 +11,7 @@ H_STUBS = ['_dispatch_calloc', 'calloc', 'malloc', 'free', '_os_object_alloc_rea
 H_ICALL = ['_dispatch_lane_push', '_dispatch_lane_concurrent_push', '_dispatch_lane_wakeup', '_dispatch_root_queue_push', '_dispatch_lane_invoke', '_dispatch_lane_activate',
            '_dispatch_async_and_wait_invoke', '_dispatch_root_queue_wakeup', '_dispatch_sync_function_invoke', '_dispatch_lane_invoke2', '_dispatch_async_redirect_invoke', '_dispatch_object_no_invoke', '_dispatch_object_no_activate']
 UNWINDSET = ('hist_threads_init.0:13,hist_threads_init.1:4,harness.0:10,harness.1:10,harness.2:10,harness.3:10,harness.4:10,harness.5:10,harness.6:10,run_one_worker.0:9,'
-             '_dispatch_futex_wait.0:9,hist_item_body.0:5,ir_obj_find.0:50')
+             '_dispatch_futex_wait.0:9,hist_item_body.0:5,ir_obj_find.0:50,_dispatch_lane_drain.0:8,_dispatch_lane_drain.1:8,_dispatch_lane_drain.2:8,_dispatch_lane_drain_non_barriers.0:8')   # the drain loops: up to 6 queued items (longest thorough sequences) + 1
 def HH(seq, conc=False, chain=False, fanin=False, indep=False, inactive=False, settarget=False, qos=0, extra=(), tiers=('quick', 'thorough'), timeout=600, stubs_extra=(), icall_extra=(), entries_extra=(), real_dispose=False, name_extra=''):
     d = ['-DSEQ="%s"' % seq] + (['-DQCONC'] if conc else []) + (['-DCHAIN', '-DSERIAL_DOMAIN'] if chain else []) + (['-DFANIN', '-DSERIAL_DOMAIN'] if fanin else []) + \
         (['-DINDEP'] if indep else []) + (['-DINACTIVE'] if inactive else []) + (['-DSETTARGET'] if settarget else []) + (['-DQOSATTR=%d' % qos] if qos else []) + list(extra)
